@@ -149,3 +149,27 @@ pub fn c04_record_eq_implies_hash_eq() {
 
 // A harness comparing two flat names of at most 6 octets (name_eq / == / name_cmp / Hash against a label-wise
 // reference) ran out of memory in CBMC after 22 min and was removed: names across representations are not covered.
+
+/// Names, flat representation: `name_eq` / `==` against the label-wise RFC 4034 reference (equal iff same label
+/// lengths and content octets equal up to ASCII case). Bounded: the label layout is fixed (1 + 2 octets of
+/// content, then the root label); the three content octets of each name range over all values.
+#[kani::proof]
+#[kani::unwind(12)]
+pub fn c04_name_eq_fixed_layout_bounded() {
+    use domain::base::name::ToName;
+    let a: [u8; 3] = kani::any();
+    let b: [u8; 3] = kani::any();
+    let xa = [1u8, a[0], 2, a[1], a[2], 0];
+    let xb = [1u8, b[0], 2, b[1], b[2], 0];
+    let x = Name::from_octets(xa).unwrap();
+    let y = Name::from_octets(xb).unwrap();
+    let ref_eq = lower(a[0]) == lower(b[0]) && lower(a[1]) == lower(b[1]) && lower(a[2]) == lower(b[2]);
+    kani::cover!(ref_eq && a != b);
+    kani::cover!(!ref_eq && (a[0] | 0x20) == (b[0] | 0x20) && a[1] == b[1] && a[2] == b[2]);
+    assert!(x.name_eq(&y) == ref_eq);
+    assert!((x == y) == ref_eq);
+}
+
+// `name_cmp` (label iterators walked from the back) does not finish in CBMC even for two names of one
+// single-octet label (15 min); a harness with hashing and a compressed ParsedName ran 25 min without verdict.
+// The name order is under contract in the Verus unit `nameorder` instead.
